@@ -19,7 +19,7 @@ fn name_chars() -> &'static [char] {
     A.get_or_init(|| {
         let mut v = vec!['c', 'h', 'r', '1', '2', 'X', '_', '.'];
         for c in 33u8..=126 {
-            if c != b'"' && !v.contains(&(c as char)) {
+            if !v.contains(&(c as char)) {
                 v.push(c as char);
             }
         }
